@@ -1,7 +1,7 @@
 (* C07: a built disclosure decodes back to its name and value; its digest is the hash of its string. *)
 From Coq Require Import List String Ascii Bool Arith.
 Import ListNotations.
-Require Import SDJ.Json SDJ.Wire SDJ.Model2 SDJ.Out SDJ.Split SDJ.Restore2 SDJ.Issuer2.
+Require Import SDJ.Json SDJ.Wire SDJ.Model2 SDJ.Out SDJ.Split SDJ.Restore2 SDJ.Issuer1 SDJ.Issuer2.
 Local Open Scope string_scope.
 
 Theorem built_disclosure_decodes E (dec : string -> dec_result) salt key v :
@@ -9,7 +9,7 @@ Theorem built_disclosure_decodes E (dec : string -> dec_result) salt key v :
   (match key with Some k => reserved k = false | None => True end) ->
   from_base64 (ie_hash E) dec (d_str (mk_disc E salt key v)) = Ok (mk_disc E salt key v).
 Proof.
-  intros Hde Hk. unfold from_base64, mk_disc. cbn [d_str]. rewrite Hde. destruct key as [k|]; cbn.
+  intros Hde Hk. unfold from_base64, mk_disc, Issuer1.mk_disc. cbn [d_str]. rewrite Hde. destruct key as [k|]; cbn.
   - rewrite Hk. reflexivity.
   - reflexivity.
 Qed.
